@@ -177,6 +177,16 @@ type c17Case struct {
 	Extra      int      `json:"extra"`    // non-container files: non-IP names and empty files in the IP dirs, sub-directories everywhere
 	PortErr    bool     `json:"port_err"` // the port-clean callback fails
 	MissingDir bool     `json:"missing_dir"`
+	// Later: what happens between the first and the second round of the same GC instance
+	Later []ctrChange `json:"later,omitempty"`
+}
+
+// ctrChange: a container's runtime answer changes (it exits, an exited docker container is started again, the runtime goes down or
+// comes back); Refile: its state files are there again (the restarted container's network was set up again under the same id)
+type ctrChange struct {
+	Ctr    int    `json:"ctr"`
+	State  string `json:"state"`
+	Refile bool   `json:"refile,omitempty"`
 }
 
 var dockerStates = []string{"running", "running", "paused", "restarting", "created", "exited", "dead", "notfound", "err500", "reset",
@@ -213,6 +223,37 @@ func genC17() *rapid.Generator[c17Case] {
 				}
 			}
 			c.Ctrs = append(c.Ctrs, d)
+		}
+		for i, k := 0, rapid.IntRange(0, 3).Draw(t, "nLater"); i < k; i++ {
+			ch := ctrChange{Ctr: rapid.IntRange(0, n-1).Draw(t, "laterCtr")}
+			cur := c.Ctrs[ch.Ctr].State
+			for _, l := range c.Later {
+				if l.Ctr == ch.Ctr {
+					cur = l.State
+				}
+			}
+			// what can follow: a removed container (or a dead sandbox) never comes back under its id, an exited docker container can be
+			// started again, a live one can end in any way, and the runtime can fail or recover at any time
+			var next []string
+			unknown := []string{"err500", "errmsg0", "errmsg1", "errmsg2", "errmsg3"}
+			switch cl := classOf(cur, c.Containerd); {
+			case cl == "dead" && !c.Containerd && cur == "exited":
+				next = append([]string{"running", "restarting", "exited", "dead", "notfound"}, unknown...)
+			case cl == "dead":
+				next = append([]string{cur}, unknown...)
+			case cl == "unknown":
+				// the state behind the failing answers: anything the first answer of this container did not exclude
+				if first := classOf(c.Ctrs[ch.Ctr].State, c.Containerd); first == "dead" && !(c.Ctrs[ch.Ctr].State == "exited" && !c.Containerd) {
+					next = append([]string{c.Ctrs[ch.Ctr].State}, unknown...)
+				} else {
+					next = sts
+				}
+			default:
+				next = sts
+			}
+			ch.State = rapid.SampledFrom(next).Draw(t, "laterState")
+			ch.Refile = rapid.Bool().Draw(t, "laterRefile")
+			c.Later = append(c.Later, ch)
 		}
 		return c
 	})
@@ -272,18 +313,25 @@ func checkC17(c c17Case, r *vcore.Rec) *vcore.Failure {
 		path, ctr string
 	}
 	var files []fileRec
-	for _, d := range c.Ctrs {
+	writeFiles := func(d ctrDef, record bool) {
 		for _, f := range d.IPFiles {
 			content := []string{d.ID, d.ID + "\neth0", d.ID + "\r\neth0", " " + d.ID + " \n"}[f.Content]
 			p := filepath.Join(ipDirs[f.Dir], f.IP)
 			os.WriteFile(p, []byte(content), 0644)
-			files = append(files, fileRec{p, d.ID})
+			if record {
+				files = append(files, fileRec{p, d.ID})
+			}
 		}
 		for _, g := range d.StateIn {
 			p := filepath.Join(gcDirs[g], d.ID)
 			os.WriteFile(p, []byte(`{"x":1}`), 0644)
-			files = append(files, fileRec{p, d.ID})
+			if record {
+				files = append(files, fileRec{p, d.ID})
+			}
 		}
+	}
+	for _, d := range c.Ctrs {
+		writeFiles(d, true)
 	}
 	var untouchable []string
 	for i := 0; i < c.Extra; i++ {
@@ -302,31 +350,35 @@ func checkC17(c c17Case, r *vcore.Rec) *vcore.Failure {
 			untouchable = append(untouchable, filepath.Join(p, "keep"))
 		}
 	}
-	// kube client for the containerd sandbox-pod lookup
+	// kube client for the containerd sandbox-pod lookup: the answer follows the container's current state
 	kube := k8sfake.NewSimpleClientset()
-	for _, d := range c.Ctrs {
-		if !c.Containerd || !strings.HasPrefix(d.State, "notready-") || d.State == "notready-nopod" {
-			continue
-		}
-		pod := &corev1.Pod{ObjectMeta: metav1.ObjectMeta{Name: "pod-" + d.ID, Namespace: "ns1"}}
-		switch d.State {
-		case "notready-running":
-			pod.Status.ContainerStatuses = []corev1.ContainerStatus{{State: corev1.ContainerState{Running: &corev1.ContainerStateRunning{}}}}
-		case "notready-waiting":
-			pod.Status.ContainerStatuses = []corev1.ContainerStatus{{State: corev1.ContainerState{Terminated: &corev1.ContainerStateTerminated{}}},
-				{State: corev1.ContainerState{Waiting: &corev1.ContainerStateWaiting{}}}}
-		case "notready-terminated":
-			pod.Status.ContainerStatuses = []corev1.ContainerStatus{{State: corev1.ContainerState{Terminated: &corev1.ContainerStateTerminated{}}}}
-		}
-		kube.Tracker().Add(pod)
-	}
 	kube.PrependReactor("get", "pods", func(a k8stestingAction) (bool, k8sObject, error) {
-		if ga, ok := a.(getAction); ok {
-			for _, d := range c.Ctrs {
-				if d.State == "notready-kubeerr" && ga.GetName() == "pod-"+d.ID {
-					return true, nil, fmt.Errorf("injected apiserver error")
-				}
+		ga, ok := a.(getAction)
+		if !ok {
+			return false, nil, nil
+		}
+		for _, d := range c.Ctrs {
+			if ga.GetName() != "pod-"+d.ID {
+				continue
 			}
+			stateMu.Lock()
+			st := states[d.ID]
+			stateMu.Unlock()
+			pod := &corev1.Pod{ObjectMeta: metav1.ObjectMeta{Name: "pod-" + d.ID, Namespace: "ns1"}}
+			switch st {
+			case "notready-kubeerr":
+				return true, nil, fmt.Errorf("injected apiserver error")
+			case "notready-running":
+				pod.Status.ContainerStatuses = []corev1.ContainerStatus{{State: corev1.ContainerState{Running: &corev1.ContainerStateRunning{}}}}
+			case "notready-waiting":
+				pod.Status.ContainerStatuses = []corev1.ContainerStatus{{State: corev1.ContainerState{Terminated: &corev1.ContainerStateTerminated{}}},
+					{State: corev1.ContainerState{Waiting: &corev1.ContainerStateWaiting{}}}}
+			case "notready-terminated":
+				pod.Status.ContainerStatuses = []corev1.ContainerStatus{{State: corev1.ContainerState{Terminated: &corev1.ContainerStateTerminated{}}}}
+			default:
+				return false, nil, nil // no such pod (the tracker is empty)
+			}
+			return true, pod, nil
 		}
 		return false, nil, nil
 	})
@@ -359,17 +411,49 @@ func checkC17(c c17Case, r *vcore.Rec) *vcore.Failure {
 	defer os.Unsetenv("CONTAINERD_HOST")
 	g := gc.NewFlannelGC(kube, cli, make(chan struct{}), cleanPort)
 	classes := map[string]bool{}
-	for round := 1; round <= 2; round++ {
+	cur := func(id string) string {
+		stateMu.Lock()
+		defer stateMu.Unlock()
+		return states[id]
+	}
+	var cleanedEver []string
+	changed, restarted := false, false
+	for round := 1; round <= 3; round++ {
+		if round == 2 {
+			for _, ch := range c.Later {
+				d := c.Ctrs[ch.Ctr]
+				was := classOf(cur(d.ID), c.Containerd)
+				stateMu.Lock()
+				states[d.ID] = ch.State
+				stateMu.Unlock()
+				if ch.Refile {
+					writeFiles(d, false)
+				}
+				changed = true
+				if was == "dead" && ch.Refile && classOf(ch.State, c.Containerd) != "dead" {
+					restarted = true
+				}
+			}
+		}
+		existed := map[string]bool{}
+		for _, f := range files {
+			if _, err := os.Stat(f.path); err == nil {
+				existed[f.path] = true
+			}
+		}
+		cmu.Lock()
+		cleaned = nil
+		cmu.Unlock()
 		if err := gc.VerifRunOnce(g); err != nil {
 			return vcore.Failf("c17:run", "GC round failed: %v", err)
 		}
 		for _, f := range files {
-			st := states[f.ctr]
+			st := cur(f.ctr)
 			cl := classOf(st, c.Containerd)
 			classes[cl] = true
 			_, serr := os.Stat(f.path)
 			gone := os.IsNotExist(serr)
-			if gone && (cl == "alive" || cl == "unknown") {
+			if gone && existed[f.path] && (cl == "alive" || cl == "unknown") {
 				return vcore.Failf("c17:removed_live", "round %d removed %s of container %s whose runtime state is %q (%s)", round,
 					strings.TrimPrefix(f.path, root), f.ctr, st, cl)
 			}
@@ -379,16 +463,18 @@ func checkC17(c c17Case, r *vcore.Rec) *vcore.Failure {
 			}
 		}
 		for _, id := range cleaned {
-			if cl := classOf(states[id], c.Containerd); cl == "alive" || cl == "unknown" {
-				return vcore.Failf("c17:port_cleaned_live", "round %d cleaned the port mappings of container %s whose runtime state is %q", round, id, states[id])
+			if cl := classOf(cur(id), c.Containerd); cl == "alive" || cl == "unknown" {
+				return vcore.Failf("c17:port_cleaned_live", "round %d cleaned the port mappings of container %s whose runtime state is %q", round, id, cur(id))
 			}
 		}
+		cleanedEver = append(cleanedEver, cleaned...)
 		for _, p := range untouchable {
 			if _, err := os.Stat(p); err != nil {
 				return vcore.Failf("c17:non_container_file", "round %d removed %s which is not a container state file", round, strings.TrimPrefix(p, root))
 			}
 		}
 	}
+	cleaned = cleanedEver
 	// every dead container with a state file in a gc dir had its ports cleaned
 	for _, d := range c.Ctrs {
 		if classOf(d.State, c.Containerd) == "dead" && len(d.StateIn) > 0 {
@@ -420,6 +506,8 @@ func checkC17(c c17Case, r *vcore.Rec) *vcore.Failure {
 	sort.Strings(cl)
 	r.ClassIf(c.Containerd, "containerd_mode")
 	r.ClassIf(!c.Containerd, "docker_mode")
+	r.ClassIf(changed, "state_changed_between_rounds")
+	r.ClassIf(restarted, "dead_container_back_with_files")
 	r.ClassIf(classes["alive"] && classes["dead"] && classes["unknown"], "alive_dead_and_erroring")
 	if classes["alive"] && classes["dead"] && classes["unknown"] {
 		r.NonTrivial()
